@@ -120,7 +120,7 @@ def small_scope(smt2, timeout_ms=10000):
     last = ("unknown", "")
     for S, tmo in ((2, 8000), (5, 12000), (SCOPE, max(timeout_ms, 20000))):
         r = _small_scope(smt2, tmo, S)
-        if r[0] == "sat":
+        if r[0] in ("sat", "sat-candidate"):
             return r
         last = r
     return last
@@ -135,12 +135,53 @@ def _small_scope(smt2, timeout_ms, SCOPE):
     s0.from_string(smt2)
     out = []
     defax = []
-    for a in s0.assertions():
+    approx = False
+    # unguarded quantifiers over chain names (forall_atoms, variables named qa_*) are instantiated over the ground
+    # integer constants of the query: an *approximation* (models found this way are candidates, flagged as such)
+    consts = {}
+
+    def collect_consts(e):
+        if z3.is_quantifier(e):
+            collect_consts(e.body())
+            return
+        if z3.is_app(e):
+            if e.num_args() == 0 and z3.is_int(e) and (z3.is_int_value(e) or e.decl().kind() == z3.Z3_OP_UNINTERPRETED):
+                consts[e.get_id()] = e
+            for ch in e.children():
+                collect_consts(ch)
+
+    def inst_qa(e, pos):
+        nonlocal approx
+        if z3.is_quantifier(e) and e.num_vars() == 1 and e.var_name(0).startswith("qa_") and (e.is_forall() == pos):
+            approx = True
+            cands = list(consts.values())[:24] + [z3.IntVal(0)]
+            insts = [inst_qa(z3.substitute_vars(e.body(), c), pos) for c in cands]
+            return z3.And(*insts) if e.is_forall() else z3.Or(*insts)
+        if z3.is_quantifier(e):
+            return e
+        if z3.is_not(e):
+            return z3.Not(inst_qa(e.arg(0), not pos))
+        if z3.is_and(e):
+            return z3.And(*[inst_qa(c, pos) for c in e.children()])
+        if z3.is_or(e):
+            return z3.Or(*[inst_qa(c, pos) for c in e.children()])
+        if z3.is_implies(e):
+            return z3.Implies(inst_qa(e.arg(0), not pos), inst_qa(e.arg(1), pos))
+        return e
+
+    assertions = list(s0.assertions())
+    for a in assertions:
+        collect_consts(a)
+    assertions = [inst_qa(a, True) for a in assertions]
+    for a in assertions:
         if z3.is_quantifier(a) and a.is_forall() and a.num_patterns() == 1 and all(a.var_name(i).startswith("q_") for i in range(a.num_vars())):
             defax.append(a)  # definitional axiom of a spec function: instantiated at its ground applications below
             continue
         x = _expand(a, True, z3, SCOPE)
         if x is None:
+            if z3.is_quantifier(a) and a.is_forall():
+                approx = True  # a universally quantified hypothesis that cannot be expanded is dropped (weaker pc)
+                continue
             return "unknown", ""
         out.append(x)
     for _ in range(2):  # instances may mention further applications
@@ -191,7 +232,7 @@ def _small_scope(smt2, timeout_ms, SCOPE):
     if r == z3.sat:
         import json
 
-        return "sat", json.dumps(model_dict(s.model(), z3))
+        return ("sat-candidate" if approx else "sat"), json.dumps(model_dict(s.model(), z3))
     return ("unsat-in-scope" if r == z3.unsat else "unknown"), ""
 
 
@@ -218,6 +259,13 @@ def model_dict(m, z3, rng=48):
                 for i in range(-2, rng):
                     vals[i] = _pyval(m.eval(d(z3.IntVal(i)), model_completion=True), z3)
                 out["funcs"][name] = vals
+            elif d.arity() == 2 and name == "Mem":
+                vals = {}
+                for i in range(-2, 24):
+                    for j in range(-2, 24):
+                        if z3.is_true(m.eval(d(z3.IntVal(i), z3.IntVal(j)), model_completion=True)):
+                            vals.setdefault(i, []).append(j)
+                out["funcs"]["Mem"] = vals
         except Exception:
             continue
     return out
@@ -252,6 +300,8 @@ def solve_one(job):
                 rr, model = "unknown", ""
             if rr == "sat":
                 return key, "sat", "z3-smallscope", time.time() - t0, model
+            if rr == "sat-candidate":
+                return key, "sat-candidate", "z3-smallscope(approx)", time.time() - t0, model
             s = z3.Solver()
             s.set("timeout", Z3_TIMEOUT_MS)
             s.from_string(smt2)
